@@ -57,6 +57,7 @@ var (
 	ErrCorruptedEntry    = errors.New("entry data corrupted")
 	ErrEmptyKey          = errors.New("entry key cannot be empty")
 	ErrKeyTooLong        = errors.New("entry key too long: the key length is stored in 16 bits (max 65535 bytes)")
+	ErrNameTooLong       = errors.New("swamp name too long: the name length is stored in 16 bits (max 65535 bytes)")
 	ErrFileClosed        = errors.New("file is closed")
 	ErrCompactionRunning = errors.New("compaction is already running")
 )
